@@ -10,7 +10,7 @@
    textually to the stub.  If a stub cannot be redirected the replay is
    reported as `solver-only`;
 3. run the test with `cargo kani playback` in the dev profile (overflow checks
-   on, as Kani models it) and in `--release`;
+   on, as Kani models it); `cargo kani playback` of Kani 0.68 has no --release;
 4. a replay that panics (or exceeds its time limit for termination harnesses)
    counts as reproduced.
 """
@@ -205,7 +205,7 @@ def confirm(pid, outcome, o, meta, workdir):
               "// failing checks: %s\n"
               "// Run: /verif/check %s --replay %s\n"
               "// (the test is appended to the harness file in a scratch overlay of /repo and run with\n"
-              "//  `cargo kani playback`, dev profile and --release)\n"
+              "//  `cargo kani playback`, dev profile)\n"
               "// harness: %s\n" % (
                   pid, h.name, "; ".join(f["description"] for f in outcome.failures[:4]), pid, path, h.name))
     with open(path, "w") as fh:
@@ -256,10 +256,10 @@ def run_playback(o, hname, test, tname, meta, workdir, termination=False):
         if unredirected:
             return {"status": "solver-only", "detail": "stubs not redirectable natively: %s" % ", ".join(unredirected)}
         results = {}
-        for profile in ("dev", "release"):
+        # dev profile only (debug assertions and overflow checks on: the profile Kani models);
+        # `cargo kani playback` of Kani 0.68 rejects --release
+        for profile in ("dev",):
             cmd = ["cargo", "kani", "playback", "-Z", "concrete-playback", "--lib"]
-            if profile == "release":
-                cmd += ["--release"]
             cmd += ["--", tname, "--exact-match-placeholder"]
             cmd = [c for c in cmd if c != "--exact-match-placeholder"]
             log = os.path.join(workdir, "%s.%s.test.log" % (tname, profile))
